@@ -821,3 +821,9 @@ def rules(chk: Check) -> None:
     from .shared import defensive_idioms_effective, imaginary_dispatch_strict
     chk.stage(defensive_idioms_effective, chk, "R20.6", ("PotentialTools.effectivePotentialNoResum", "PotentialTools.integrals", "effectivePotential", "interpolatableFunction"))
     chk.stage(imaginary_dispatch_strict, chk, "R20.7")
+    # R20.8: the shipped tables are loaded first and the extrapolation policy is chosen afterwards: a change of mode rebuilds the spline whenever a table exists,
+    # so FUNCTION selected on a loaded table really extrapolates instead of returning NaN beyond the table (typestate rule shared with C18 R18.6)
+    from ..core import Remap
+    from . import c18
+    chk.stage(c18.r18_6, Remap(chk, {"R18.6": "R20.8"}))
+    chk.floor("R20.8", 3)
